@@ -163,7 +163,8 @@ def scenario(case):
     encoding = case.get("encoding", "utf-8")
     if case.get("names"):
         src_tree = rename_tree(src_tree, case["names"])
-    rig = Rig(tree=SERVER_TREE if op == "upload" else None, server_kwargs={"block_size": 7, "encoding": encoding})
+    rig = Rig(tree=SERVER_TREE if op in ("upload", "upload-seq") else None,
+              server_kwargs={"block_size": 7, "encoding": encoding})
     w = rig.world
     a = w.aioftp
     if fallback:
@@ -173,7 +174,24 @@ def scenario(case):
     client = a.Client(path_io_factory=a.MemoryPathIO, encoding=encoding)
     payload = src_tree if kind == "dir" else src_tree
     try:
-        if op == "upload":
+        if op == "upload-seq":
+            # one client, the same relative destination from several working directories, and make_directory in between
+            populate_client(client.path_io, "/local", {"src": payload})
+            before = backends.tree_to_snapshot(SERVER_TREE)
+            want = dict(before)
+            for wd in ("/w", "/keep", "/"):
+                target = posixpath.join(norm(wd, dest), "src") if not write_into else norm(wd, dest)
+                want.update(with_parents(flatten(payload, target)))
+            want.pop("/", None)
+
+            async def main():
+                await client.connect("127.0.0.1", 2121)
+                await client.login()
+                for wd in ("/w", "/keep", "/"):
+                    await client.change_directory(wd)
+                    await client.upload("/local/src", dest, write_into=write_into, block_size=block)
+                await client.quit()
+        elif op == "upload":
             populate_client(client.path_io, "/local", {"src": payload})
             before = backends.tree_to_snapshot(SERVER_TREE)
             destp = norm(cwd, dest)
@@ -239,7 +257,7 @@ def scenario(case):
         except Exception as exc:
             problems.append({"kind": "exception", "exc": repr(exc)[:300]})
         if not problems:
-            if op == "upload":
+            if op in ("upload", "upload-seq"):
                 got = rig.snapshot()
                 if got != want:
                     problems.append({"kind": "uploaded-tree", "missing": sorted(set(want) - set(got)),
@@ -335,6 +353,15 @@ def build_items(tier):
                                       "cwd": cwd, "block": 8192, "fallback": fallback})
                 cases.append({"op": "remove", "kind": kind, "tree": tree, "dest": "", "write_into": False, "cwd": cwd,
                               "block": 8192, "fallback": fallback})
+    # the same relative destination from several working directories on one client connection
+    for kind, tree in sources:
+        if kind == "dir" and count_nested(tree) > 3:
+            continue
+        for fallback in (False, True):
+            for dest in ("d", "x/y"):
+                for write_into in (False, True):
+                    cases.append({"op": "upload-seq", "kind": kind, "tree": tree, "dest": dest, "write_into": write_into,
+                                  "cwd": "/", "block": 8192, "fallback": fallback})
     # non-ASCII names through servers/clients configured with another encoding
     for kind, tree in sources:
         if kind != "dir" or count_nested(tree) > 3:
@@ -359,7 +386,8 @@ def run(tier, seed, t0):
     part = report.merge_all(report.pmap(work, items))
     bounds = {"sources": nsrc, "max_nodes": 4, "names": ["a", "b"], "destinations": DESTS, "write_into": [False, True],
               "remote_cwd": ["/", "/w"], "block_sizes": [1, 8192], "servers": ["MLSD", "LIST fallback"], "encodings": ["utf-8", "latin-1 with non-ASCII names (trees <= 3 nodes)"],
-              "ops": ["upload", "download", "list(recursive)", "remove"]}
+              "ops": ["upload", "download", "list(recursive)", "remove",
+                      "upload of the same relative destination from three working directories on one connection"]}
     return report.finish(
         PID, tier, seed, "model_checking", part, t0,
         rule="every (source tree, destination, write_into, cwd, block size, server flavour, operation) executed through the "
